@@ -33,6 +33,7 @@ func startAuthLeader() (*node, string, error) {
 		return nil, "", err
 	}
 	a.pass = leadPass
+	a.keepRunning = true
 	if _, err := a.configFP(); err != nil { // authenticates the admin connection
 		return nil, "", err
 	}
